@@ -14,6 +14,9 @@ Decided:
   R7 args / stdin / stdin_str / stdout / stderr are rendered as templates, cmd is not; the child's environment is the
      hook data's env; the hook data given to the template engine is the event's data;
   R8 the template variables documented per hook type in acmed.toml(5) exist in the data structure used for that type.
+  Evaluation-first: R3 resolves hook names by interpreting Config::get_hook and Certificate/Account::get_hooks on a sample
+  configuration (props/hook_table.py: order, groups expanded in place, duplicates kept). W1: template variable names as written by
+  the derived Serialize impls of the hook data structs (props/wire_shape.py).
 """
 import re
 from .. import artifacts as A
@@ -26,13 +29,15 @@ from .guards import body_family, closure_capture_origins, closure_users
 LEVEL = "other"
 TECHNIQUE = ("CFG rules on hooks::call / call_single (sequential await, first-error exit, failure condition), provenance with "
              "forbidden reorderers/shrinkers on every hook list, partition check of the hook-type families, must-pass-through of "
-             "pre/post file hooks around the open/write, environment-layering rules on set_env, man-page/struct agreement")
+             "pre/post file hooks around the open/write, environment-layering rules on set_env, man-page/struct agreement"
+             '; evaluation of Config::get_hook / get_hooks on a sample configuration; derived-Serialize member tables of the hook data')
 LEVEL_TEXT = ("Decides for all hook lists and events the dispatch structure: order-preserving resolution, type filter, strictly "
               "sequential execution with abort on hard failure, correct bracketing of file writes, environment precedence, "
               "which strings are templates, and that documented variables exist. What a child process observes and MiniJinja's "
               "rendering are not decided.")
 LEVEL_NOTE = ("Not decided: child process behaviour, MiniJinja rendering, hooks that never exit. Trusted: rustc MIR, extractor, "
-              "async_process, the mdoc parser (rules/artifacts.py).")
+              "async_process, the mdoc parser (rules/artifacts.py)."
+              ' R3 by evaluation is (sample-based: evaluation on the listed sample family is not a proof for all inputs; the structural rule is the fallback when the interpreter cannot run the code)')
 
 HT = "acmed::config::HookType"
 FILE_TYPES = {"FilePreCreate", "FilePostCreate", "FilePreEdit", "FilePostEdit"}
